@@ -448,4 +448,94 @@ theorem tokenize_lexical_reach {cfg : Cfg} {re : Re} {lines : List (List Char)} 
     · cases h
 
 
+/-! ## the scan is deterministic: it stops at most once -/
+
+/-- a configuration of the scanner: line, column, group of the open span -/
+structure Conf where
+  i : Nat
+  c : Nat
+  s : Option Nat
+  deriving DecidableEq
+
+/-- the scanner as a function: the next configuration, `none` when it stops (end of the text, a
+character no pattern matches, a match that does not advance) -/
+def stepConf (cfg : Cfg) (re : Re) (lines : List (List Char)) (x : Conf) : Option Conf :=
+  match lines[x.i]? with
+  | none => none
+  | some line =>
+    if x.c < line.length then
+      match x.s with
+      | none =>
+        match re.norm x.i x.c with
+        | none => none
+        | some m =>
+          if x.c < m.stop then some ⟨x.i, m.stop, if m.kind ∈ cfg.spanKinds then some m.kind else none⟩
+          else none
+      | some k =>
+        match re.body k x.i x.c with
+        | none => some ⟨x.i + 1, 0, some k⟩
+        | some m => if x.c < m.stop then some ⟨x.i, m.stop, none⟩ else none
+    else some ⟨x.i + 1, 0, x.s⟩
+
+def iterConf (cfg : Cfg) (re : Re) (lines : List (List Char)) : Nat → Conf → Option Conf
+  | 0, x => some x
+  | n + 1, x =>
+    match iterConf cfg re lines n x with
+    | none => none
+    | some y => stepConf cfg re lines y
+
+theorem reach_iter {cfg : Cfg} {re : Re} {lines : List (List Char)} {i c : Nat} {s : Option Nat}
+    (h : Reach cfg re lines i c s) : ∃ n, iterConf cfg re lines n ⟨0, 0, none⟩ = some ⟨i, c, s⟩ := by
+  induction h with
+  | start => exact ⟨0, rfl⟩
+  | token _ hl hc hm hadv hk ih =>
+    obtain ⟨n, hn⟩ := ih
+    exact ⟨n + 1, by simp [iterConf, hn, stepConf, hl, hc, hm, hadv, hk]⟩
+  | opener _ hl hc hm hadv hk ih =>
+    obtain ⟨n, hn⟩ := ih
+    exact ⟨n + 1, by simp [iterConf, hn, stepConf, hl, hc, hm, hadv, hk]⟩
+  | close _ hl hc hm hadv ih =>
+    obtain ⟨n, hn⟩ := ih
+    exact ⟨n + 1, by simp [iterConf, hn, stepConf, hl, hc, hm, hadv]⟩
+  | miss _ hl hc hm ih =>
+    obtain ⟨n, hn⟩ := ih
+    exact ⟨n + 1, by simp [iterConf, hn, stepConf, hl, hc, hm]⟩
+  | eol _ hl hc ih =>
+    obtain ⟨n, hn⟩ := ih
+    exact ⟨n + 1, by simp [iterConf, hn, stepConf, hl, hc]⟩
+
+theorem iter_stuck {cfg : Cfg} {re : Re} {lines : List (List Char)} {x0 x : Conf} {n : Nat}
+    (hx : iterConf cfg re lines n x0 = some x) (hs : stepConf cfg re lines x = none) :
+    ∀ k, iterConf cfg re lines (n + 1 + k) x0 = none := by
+  intro k
+  induction k with
+  | zero => simp [iterConf, hx, hs]
+  | succ k ih => rw [show n + 1 + (k + 1) = (n + 1 + k) + 1 by omega]; simp [iterConf, ih]
+
+/-- the scan stops at most once: two reachable configurations at which the scanner cannot go on are
+the same configuration -/
+theorem stuck_unique {cfg : Cfg} {re : Re} {lines : List (List Char)} {x y : Conf}
+    {n m : Nat} (hx : iterConf cfg re lines n ⟨0, 0, none⟩ = some x)
+    (hy : iterConf cfg re lines m ⟨0, 0, none⟩ = some y)
+    (sx : stepConf cfg re lines x = none) (sy : stepConf cfg re lines y = none) : x = y := by
+  rcases Nat.lt_trichotomy n m with h | h | h
+  · have := iter_stuck hx sx (m - n - 1)
+    rw [show n + 1 + (m - n - 1) = m by omega, hy] at this; cases this
+  · subst h; rw [hx] at hy; cases hy; rfl
+  · have := iter_stuck hy sy (n - m - 1)
+    rw [show m + 1 + (n - m - 1) = n by omega, hx] at this; cases this
+
+/-- there is only one reachable character (outside a span) that no token pattern matches -/
+theorem unmatched_unique {cfg : Cfg} {re : Re} {lines : List (List Char)} {i c i' c' : Nat}
+    {line line' : List Char}
+    (h1 : Reach cfg re lines i c none) (hl : lines[i]? = some line) (hc : c < line.length)
+    (hn : re.norm i c = none)
+    (h2 : Reach cfg re lines i' c' none) (hl' : lines[i']? = some line') (hc' : c' < line'.length)
+    (hn' : re.norm i' c' = none) : i = i' ∧ c = c' := by
+  obtain ⟨n, hx⟩ := reach_iter h1
+  obtain ⟨m, hy⟩ := reach_iter h2
+  have := stuck_unique hx hy (by simp [stepConf, hl, hc, hn]) (by simp [stepConf, hl', hc', hn'])
+  cases this; exact ⟨rfl, rfl⟩
+
+
 end SrcPos
